@@ -201,6 +201,12 @@ def judge_load(ctx, li, data, region, detail, acc, case, fault_kind):
                 break
             same = tcs.equals(base[si])
             if same:
+                if region in STRICT_REGIONS:
+                    # these bytes are not reserved by the format: a changed value must be refused even
+                    # when the object that comes out happens to equal the original
+                    outcome = "accepted-equal"
+                    acc.fail(f"{region}:accepted-equal-object:{detail}",
+                             f"byte change in {region} ({detail}) was accepted (object equal to the original)", case)
                 break
             outcome = "different"
             if region in ("data", "padding"):
@@ -230,6 +236,8 @@ def judge_load(ctx, li, data, region, detail, acc, case, fault_kind):
     return outcome
 
 
+STRICT_REGIONS = {"header.magic", "header.version_major", "header.num_items", "header.file_size", "desc.type",
+                  "desc.key_start", "desc.key_len", "desc.array_start", "desc.array_len", "key"}
 ALPHABET_QUICK = [("flip", b) for b in range(8)] + [("set", 0), ("set", 255), ("add", 1), ("add", -1)]
 
 
